@@ -91,6 +91,7 @@ func (e *engine) grammarObls(prop string, g *grammarDecl) []*obligation {
 	if g.Values {
 		out = append(out, e.grammarValueObl(prop, g))
 	}
+	out = append(out, e.grammarNonEmptyObls(prop, g)...)
 	return out
 }
 
@@ -319,4 +320,59 @@ func (e *engine) grammarValueObl(prop string, g *grammarDecl) *obligation {
 		o.Status, o.Output = "refuted", "grammar scan: "+strings.Join(bad, "; ")
 	}
 	return o
+}
+
+// grammarNonEmptyObls: the listed nonterminals cannot derive the empty string (the contracts assume the lists built
+// from them non-empty: a choice type has at least one option).
+func (e *engine) grammarNonEmptyObls(prop string, g *grammarDecl) []*obligation {
+	if len(g.NonEmpty) == 0 {
+		return nil
+	}
+	pos := fmt.Sprintf("%s:%d", relPath(g.File), g.Line)
+	src, err := os.ReadFile(filepath.Join(e.w.repo, g.Source))
+	var alts []yaccAlt
+	if err == nil {
+		alts = parseYaccRules(string(src))
+	}
+	nonterm := map[string]bool{}
+	for _, a := range alts {
+		nonterm[a.lhs] = true
+	}
+	nullable := map[string]bool{}
+	for changed := true; changed; {
+		changed = false
+		for _, a := range alts {
+			if nullable[a.lhs] {
+				continue
+			}
+			all := true
+			for _, s := range a.symbols {
+				if !nonterm[s] || !nullable[s] {
+					all = false
+					break
+				}
+			}
+			if all {
+				nullable[a.lhs] = true
+				changed = true
+			}
+		}
+	}
+	var out []*obligation
+	for _, nt := range g.NonEmpty {
+		o := &obligation{Func: "module", Name: "module/grammar/nonempty/" + nt, Kind: "frame", Label: prop + ".grammar", Props: []string{prop}, Pos: pos,
+			Clause: "the nonterminal " + nt + " of " + g.Source + " cannot derive the empty string"}
+		switch {
+		case err != nil:
+			o.Status, o.Output = "refuted", "grammar scan: "+err.Error()
+		case !nonterm[nt]:
+			o.Status, o.Output = "refuted", "grammar scan: no such nonterminal"
+		case nullable[nt]:
+			o.Status, o.Output = "refuted", "grammar scan: "+nt+" has an alternative that derives the empty string"
+		default:
+			o.Status, o.Solver, o.Output = "discharged", "grammar scan", "grammar scan: not nullable"
+		}
+		out = append(out, o)
+	}
+	return out
 }
